@@ -309,7 +309,7 @@ fn gen_schema(r: &mut Rng) -> SchemaD {
         types.push(TypeD::Input { name: n.clone(), fields });
     }
     let gen_args = |r: &mut Rng| -> Vec<ArgD> {
-        let na = r.below(4);
+        let na = if r.chance(3, 4) { 1 + r.below(3) } else { 0 };
         (0..na)
             .map(|j| {
                 let base = if r.chance(1, 2) { r.pick(&ins).clone() } else { r.pick(&scalars).to_string() };
@@ -820,7 +820,7 @@ impl Gen<'_> {
             } else {
                 let (a, b) = if secret { self.secret_const(&base, depth) } else { self.plain_const(ty, typed, depth) };
                 let val = if self.r.chance(1, 10) { None } else { Some((Self::to_const(&a), Self::to_const(&b))) };
-                let has_default = self.r.chance(1, 4);
+                let has_default = self.r.chance(1, 4) && (!secret || self.defaults);
                 let default = if has_default {
                     let (a, b) = if secret {
                         if self.defaults { self.secret_const(&base, depth) } else { (GValue::Null, GValue::Null) }
@@ -920,10 +920,13 @@ impl Gen<'_> {
         oa.push('{');
         ob.push('{');
         let n = 1 + self.r.below(3);
-        let fields: Vec<FieldD> = match self.d.get(ty) {
+        let mut fields: Vec<FieldD> = match self.d.get(ty) {
             Some(TypeD::Object { fields, .. }) | Some(TypeD::Interface { fields, .. }) => fields.clone(),
             _ => vec![],
         };
+        if !self.r.chance(1, 6) && fields.iter().any(|f| !f.name.starts_with("__")) {
+            fields.retain(|f| !f.name.starts_with("__"));
+        }
         let mut emitted = 0;
         for _ in 0..n {
             let k = self.r.below(12);
